@@ -179,8 +179,9 @@ def check_text(acc, text, ctx, w):
             'output %r: %s' % (P, R3.first_diff(capt.tree, ref.neutral)))
     back = I.run_parse(P, with_comments=True, keep_node=True)
     if back.kind != 'accept':
-        acc.bag.add('C13|impl-rejects-pretty-output|%s|%s' % (
-            judge.msg_kind(back.msg or ''), ctx), w,
+        acc.bag.add('C13|impl-rejects-pretty-output|%s|ref=%s|%s' % (
+            judge.msg_kind(back.msg or ''),
+            ref.reason if ref.verdict == 'reject' else ref.verdict, ctx), w,
             'output %r: %s' % (P, back.msg))
         return
     if back.tree != capt.tree:
